@@ -729,6 +729,14 @@ func (r *proxyStreamReceiver) recvReplicationMessages(
 			// record last source exclusive high watermark (original id space)
 			r.ackMu.Lock()
 			r.lastExclusiveHighOriginal = attr.Messages.ExclusiveHighWatermark
+			// Count every target shard of this batch in the ACK aggregation before anything is
+			// handed off: a target that has not reported yet must hold the aggregated ACK back
+			// at its first routed task instead of being skipped by the minimum in sendAck.
+			for targetShardID, tasks := range tasksByTargetShard {
+				if _, ok := r.ackByTarget[targetShardID]; !ok {
+					r.ackByTarget[targetShardID] = tasks[0].SourceTaskId
+				}
+			}
 			r.ackMu.Unlock()
 
 			// update tracker for incoming messages
